@@ -82,6 +82,7 @@ func genC22(seed uint64) *Plan {
 		// it and still has a (delayed) response outstanding on it: requests
 		// queued behind the throttle must not sleep it out on a connection
 		// the client knows is gone
+		g.P.K["long_throttle"] = 1
 		for i := 0; i < int(g.rng(1, 2)); i++ {
 			n := int(g.rng(2, 12))
 			g.fault(Fault{Kind: "throttle", Broker: -1, Key: -1, Nth: n, Arg: g.pick(30000, 60000, 120000), DurMs: g.pick(300, 1000, 3000)})
